@@ -170,11 +170,57 @@ def r05a(ctx):
                   'the xorb hash of the answer is the header read at the probed entry index')
 
 
+def _iterator_form_r05b(ctx, a, fn):
+    """the run length as `chunks.iter().skip(start).zip(query.iter()).take_while(|(e, q)| e.chunk_hash == **q).count()`"""
+    cnt = [c for c in a.calls('core::iter::traits::iterator::Iterator::count')]
+    if len(cnt) != 1:
+        return False
+    e = ('call', a.term(cnt[0])['fn'], [a.arg(cnt[0], 0)], cnt[0])
+    src = a.arg(cnt[0], 0)
+    tw = [z for z in flow.subtrees(src) if z[0] == 'call' and sg(z[1]).endswith('Iterator::take_while')]
+    zp = [z for z in flow.subtrees(src) if z[0] == 'call' and sg(z[1]).endswith('Iterator::zip')]
+    sk = [z for z in flow.subtrees(src) if z[0] == 'call' and sg(z[1]).endswith('Iterator::skip')]
+    if not (len(tw) == 1 and len(zp) == 1 and len(sk) == 1):
+        return False
+    ok_zip = flow.mentions(zp[0][2][0], lambda z: z[0] == 'field' and z[2] == 'chunks') and flow.mentions(zp[0][2][1], lambda z: z[0] == 'param' and z[2] == 'query_hashes')
+    start = sk[0][2][1]
+    cl = [z for z in flow.subtrees(tw[0][2][1]) if z[0] == 'agg' and z[1] == 'closure']
+    okc = False
+    if cl:
+        ac = an(ctx.F.body(cl[0][2]))
+        rr = [x for (_, _, _, x) in ac.ret_sites()]
+        for x in rr:
+            from .core import as_comparison
+            cmpx = as_comparison(x)
+            if cmpx and cmpx[0] == 'Eq' and ((cmpx[1][0] == 'field' and cmpx[1][2] == 'chunk_hash') or (cmpx[2][0] == 'field' and cmpx[2][2] == 'chunk_hash')):
+                okc = True
+    ctx.check(ok_zip and okc, 'R05b', fn, 'hash guard', a.loc(cnt[0]), 'the run length is the count of the longest prefix of (chunks from start) zipped with the query on which entry.chunk_hash == query hash (iterator form: bounds are those of zip/skip)',
+              'the in-memory run can be extended past a chunk whose hash was not compared with the query')
+    rs = [(b, si, x) for (b, si, k, x) in a.ret_sites() if x[0] == 'agg' and x[2].endswith('Option::Some')]
+    okr = False
+    if len(rs) == 1:
+        tup = rs[0][2][3][0][1]
+        c0, fse = tup[3][0][1], tup[3][1][1]
+        okr = a.rooted_at(c0, cnt[0]) and fse[0] == 'call' and sg(fse[1]).endswith('FileDataSequenceEntry::from_cas_entries')
+        if okr:
+            sl = fse[2][1]
+            okr = sl[0] == 'index' and flow.mentions(sl[1], lambda z: z[0] == 'field' and z[2] == 'chunks') and sl[2][0] == 'agg' and 'Range' in sl[2][2]
+            if okr:
+                rg = dict(sl[2][3])
+                en = rg.get('end', ('top',))
+                okr = flow.eqv(rg.get('start', ('top',)), start) and en[0] == 'bin' and en[1] == 'Add' and flow.eqv(en[2], start) and a.rooted_at(en[3], cnt[0]) and flow.eqv(rg.get('start'), fse[2][2]) and flow.eqv(en, fse[2][3])
+    ctx.check(okr, 'R05b', fn, 'ret', a.loc(rs[0][0], rs[0][1]) if rs else '-', 'answer = (k, from_cas_entries(meta, chunks[start..start+k], start, start+k)) with k that count')
+    return True
+
+
 def r05b(ctx):
     a = an(ctx.F.body(INMEM))
     fn = INMEM
     eff = paths.collect_effects(a, a.cfg.reach0, lambda k: k[0] if len(k) == 1 else None)
     incs = [(b, ln) for b, es in eff.items() for (c, s, t, e, ln) in es if s == 1 and t == '1']
+    if not incs and _iterator_form_r05b(ctx, a, fn):
+        _from_cas_entries(ctx)
+        return
     if not ctx.check(len(incs) == 1 and loop_of(a, incs[0][0]) is not None, 'R05b', fn, 'query_idx += 1', '-', 'one run-length increment inside the matching loop'):
         return
     ib = incs[0][0]
@@ -206,6 +252,10 @@ def r05b(ctx):
                 rg = dict(sl[2][3])
                 ok = is_pos(rg.get('end', ('top',))) and rg.get('start') == fse[2][2] and rg.get('end') == fse[2][3]
         ctx.check(ok, 'R05b', fn, 'ret', a.loc(b, si), 'answer = (k, from_cas_entries(meta, chunks[start..start+k], start, start+k))')
+    _from_cas_entries(ctx)
+
+
+def _from_cas_entries(ctx):
     f = an(ctx.F.body('mdb_shard::file_structs::FileDataSequenceEntry::from_cas_entries'))
     rs = [e for (_, _, _, e) in f.ret_sites() if e[0] == 'agg' and e[1] == 'adt']
     ok = False
@@ -222,6 +272,7 @@ def r05b(ctx):
         if len(rr) == 1 and rr[0][0] == 'field' and rr[0][2] == 'unpacked_segment_bytes':
             okc = True
     ctx.check(okc, 'R05b', f.path, 'sum.closure', '-', 'the summed quantity is each entry\'s unpacked_segment_bytes')
+
 
 
 def r05c(ctx):
@@ -253,7 +304,32 @@ def r05c(ctx):
     eq_edges = edges_where(a, key_default)
     ne_edges = edges_where(a, lambda op, l, r: key_default({'Ne': 'Eq'}.get(op, 'x'), l, r))
     gets = [g for g in a.calls('std::collections::hash::map::HashMap::get') if flow.mentions(a.arg(g, 0), lambda z: z[0] == 'field' and z[2] == 'chunk_lookup')]
-    if ctx.check(len(gets) == 1 and bool(ne_edges), 'R05c', fn, 'probe', '-', 'one chunk_lookup probe, selected per collection key'):
+    helper = None
+    if len(gets) == 1:
+        q0 = a.arg(gets[0], 1)
+        if q0[0] == 'call' and ctx.cg.norm.get(sg(q0[1])) and ctx.cg.norm[sg(q0[1])].startswith('mdb_shard::shard_file_manager::'):
+            helper = q0
+    if helper is not None:
+        # depth-1 summary: a same-module helper (collection key, hash) -> probe key
+        h = an(F.body(ctx.cg.norm[sg(helper[1])]))
+        kparam = [i for i, l in enumerate(h.body['locals']) if 1 <= i <= h.body['argc'] and 'HMACKey' in l['ty'] or (1 <= i <= h.body['argc'] and l['ty'].startswith('[u8; 32]')) or (1 <= i <= h.body['argc'] and 'DataHash' in l['ty'] and not l['ty'].startswith('&'))]
+        hparam = [i for i, l in enumerate(h.body['locals']) if 1 <= i <= h.body['argc'] and l['ty'].startswith('&')]
+        okh = len(kparam) >= 1 and len(hparam) >= 1
+        if okh:
+            kp, hp = kparam[0], hparam[0]
+            isk = lambda z: z[0] == 'param' and z[1] == kp
+            h_eq = edges_where(h, lambda op, l, r: op == 'Eq' and isk(l) and r[0] == 'call' and 'default' in sg(r[1]).lower())
+            h_ne = edges_where(h, lambda op, l, r: op == 'Ne' and isk(l) and r[0] == 'call' and 'default' in sg(r[1]).lower())
+            ths = h.calls('mdb_shard::utils::truncate_hash')
+            keyed = [t for t in ths if flow.mentions(h.arg(t, 0), lambda z: z[0] == 'call' and sg(z[1]).endswith('DataHash::hmac') and flow.mentions(z, isk))]
+            plain = [t for t in ths if t not in keyed]
+            okh = len(keyed) == 1 and len(plain) == 1 and bool(h_ne) and h.cfg.must_pass(keyed[0], via_edges=h_ne) and h.cfg.must_pass(plain[0], via_edges=h_eq) and all(
+                flow.mentions(h.arg(t, 0), lambda z: z[0] == 'param' and z[1] == hp) for t in ths)
+            # call-site arguments: (this collection's key, query[0])
+            okh = okh and flow.mentions(helper[2][kp - 1], lambda z: z[0] == 'field' and z[2] == 'hmac_key') and flow.mentions(helper[2][hp - 1], lambda z: is_query_elem(z, 'query_hashes', lambda i: i == ('const', 0, 'usize')))
+        ctx.check(okh, 'R05c', fn, 'keyed probe', a.loc(gets[0]), 'the probe key is computed by a same-module helper from (collection key, query[0]): keyed truncated hash on the non-default-key edge, plain only on the default-key edge',
+                  'a keyed collection can be probed with the unkeyed hash (or vice versa)')
+    elif ctx.check(len(gets) == 1 and bool(ne_edges), 'R05c', fn, 'probe', '-', 'one chunk_lookup probe, selected per collection key'):
         q = a.arg(gets[0], 1)
         # the probe key is a join of two truncate_hash values; find both defining calls
         ths = a.calls('mdb_shard::utils::truncate_hash')
